@@ -816,6 +816,16 @@ static ares_status_t process_answer(ares_channel_t      *channel,
     goto cleanup;
   }
 
+  /* The answer must arrive on the connection the query is currently assigned
+   * to.  A late answer to an earlier transmission (the query has since been
+   * re-sent on another connection, or is waiting to be re-sent) is not
+   * accepted: the cookie and 0x20 state of the query no longer describe that
+   * transmission. */
+  if (query->conn != conn) {
+    status = ARES_SUCCESS;
+    goto cleanup;
+  }
+
   /* Validate DNS cookie in response. This function may need to requeue the
    * query. */
   if (ares_cookie_validate(query, rdnsrec, conn, now, requeue)
